@@ -14,6 +14,8 @@ import (
 	"sort"
 	"strings"
 	"time"
+
+	mxj "github.com/clbanning/mxj/v2"
 )
 
 // Verdict is the judgement of one case.
@@ -49,6 +51,48 @@ type Prop struct {
 	Fixed func() []string
 	// Extra runs implementation-only checks that do not go through the model (optional).
 	Extra func(r *Rng, tier string, res *Result)
+	// Ambient: option calls that are documented NOT to influence what this property observes (the
+	// frame theorem CxxExtFrame says so about the current source).  One case in four runs with some
+	// of them applied beforehand - which ones is a function of the case line, so a replay repeats
+	// it - and must still agree with the model, which knows nothing of them.
+	Ambient []func()
+}
+
+// applyAmbient: a subset of p.Ambient chosen by the case line.
+func applyAmbient(p *Prop, op string) {
+	if len(p.Ambient) == 0 {
+		return
+	}
+	h := hashStr(op)
+	if h%4 != 0 {
+		return
+	}
+	h /= 4
+	for i := 0; i < 3; i++ {
+		p.Ambient[h%uint64(len(p.Ambient))]()
+		h = h/uint64(len(p.Ambient)) + 7
+	}
+}
+
+// ambientQueryOpts: everything except the field separator and the result capacity - none of it is an
+// option of the path / key / update / new-map functions.
+var ambientQueryOpts = []func(){
+	func() { mxj.LeafUseDotNotation(true) },
+	func() { mxj.SetAttrPrefix("@") },
+	func() { mxj.SetAttrPrefix("") },
+	func() { mxj.CoerceKeysToLower(true) },
+	func() { mxj.CoerceKeysToSnakeCase(true) },
+	func() { mxj.IncludeTagSeqNum(true) },
+	func() { mxj.XMLEscapeChars(true) },
+	func() { mxj.XMLEscapeCharsDecoder(true) },
+	func() { mxj.CastNanInf(true) },
+	func() { mxj.CastValuesToInt(true) },
+	func() { mxj.DecodeSimpleValuesAsMap(true) },
+	func() { mxj.SetGlobalKeyMapPrefix("_") },
+	func() { mxj.XmlGoEmptyElemSyntax() },
+	func() { mxj.DisableTrimWhiteSpace(true) },
+	func() { mxj.XmlCheckIsValid(true) },
+	func() { mxj.SetCheckTagToSkipFunc(func(string) bool { return true }) },
 }
 
 type Failure struct {
@@ -103,6 +147,7 @@ func safeExec(p *Prop, op string) string {
 			resetOptions()
 			done <- out
 		}()
+		applyAmbient(p, op)
 		out = p.Exec(op)
 	}()
 	select {
